@@ -115,7 +115,7 @@ def evaluate(chk, cases, tag='cases'):
         if 'crash' in o:
             failing[i] = ['driver crashed: ' + o['crash']]
             continue
-        if c['kind'] == 'republish':       # evaluated directly on the implementation (the model's remote is a fixed function)
+        if c['kind'] in ('republish', 'empty'):       # evaluated directly on the implementation (the model's remote is a fixed function)
             continue
         kind, term = render(c, o)
         (sc if kind == 'scenario' else la).append((i, term))
@@ -190,6 +190,10 @@ def gen(chk):
             for clear in (None, 0):
                 for warm in (1, 2):
                     cases.append({'kind': 'republish', 'relative': relative, 'releases': RELEASES, 't': 0, 'release': R0[(warm + full) % len(R0)], 'full': full, 'clear': clear, 'warm': warm})
+    # the remote serves zero bytes for a tag
+    for relative in (False, True):
+        for full in (False, True):
+            cases.append({'kind': 'empty', 'relative': relative, 'releases': RELEASES, 't': 0, 'release': R0[1], 'full': full})
     # latest tag
     for tags in ([], ['v1'], ['v2023-10-09', 'v2024-04-26', 'v2023-01-27'], ['v9', 'v10'], ['2024', 'v2023'], ['b', 'a', 'c', 'B'], ['v2024-4-26', 'v2024-04-26'], ['é', 'z']):
         cases.append({'kind': 'latest', 'tags': tags})
@@ -222,7 +226,7 @@ def run(chk):
                 'resolve path} x {absolute, relative} store + random histories of length 3-8: after EVERY operation the store is snapshot (cache files and their bytes, other '
                 'files, fetch log, outcome of every load) and compared with the model; a kill (os._exit in a forked child) before EVERY I/O boundary of a load with nothing / the '
                 'same / another release cached, followed by a recovery load; races of two loaders of the same release: all interleavings with <= 2 preemptions + 120 random '
-                '(thorough: all 12870 interleavings of 8 + 8 boundaries), races with faulty loaders / other releases / three loaders, the store snapshot after EVERY boundary; latest-tag selection on 68 tag lists; load / clear / the remote re-publishes the SAME tag with other content / load / load again x {absolute, relative} x {minimal, full} x {clear(), clear(type)} (evaluated directly: nothing cached -> fetched, stored, loaded; then a cache hit)')
+                '(thorough: all 12870 interleavings of 8 + 8 boundaries), races with faulty loaders / other releases / three loaders, the store snapshot after EVERY boundary; latest-tag selection on 68 tag lists; load / clear / the remote re-publishes the SAME tag with other content / load / load again x {absolute, relative} x {minimal, full} x {clear(), clear(type)} (evaluated directly: nothing cached -> fetched, stored, loaded; then a cache hit); a tag for which the remote serves zero bytes, loaded three times (one fetch, the same failure each time)')
     if failing:
         report(chk, cases, obs, failing)
     if broken_tie:
